@@ -37,6 +37,7 @@ func (z *vZone) install() {
 		for _, l := range strings.Split(q.name, ".") {
 			vAssert(len(l) <= 63, "no query carries a label longer than 63 bytes")
 		}
+		vAssert(len(q.name) <= 253, "no query name is longer than 253 bytes (255 on the wire)")
 		z.queries = append(z.queries, q)
 		return z.answer(q)
 	}
@@ -467,4 +468,52 @@ func verifC14Chain() {
 		vAssert(vBytesEq(res.Address[1], v6(end)), "IPv6 address of the final alias target (or of the origin)")
 	}
 	vReach("chain")
+}
+
+// vHostOfLen builds a host name of exactly n bytes with labels of at most 63 bytes.
+func vHostOfLen(n int) string {
+	b := make([]byte, n)
+	for i := range b {
+		if i%64 == 63 {
+			b[i] = '.'
+		} else {
+			b[i] = 'a' + byte(i%26)
+		}
+	}
+	if b[n-1] == '.' {
+		b[n-1] = 'z'
+	}
+	return string(b)
+}
+
+// verifC14LongNames: the name-length limit (255 octets on the wire, i.e. 253
+// in presentation form) at its boundary, for a bare host and for a host whose
+// RFC 9460 2.3 prefix (_port._scheme.) pushes the query name over the limit: an
+// over-long name is refused with ErrInvalidName before any query is made.
+func verifC14LongNames() {
+	n := []int{240, 252, 253, 254, 255, 256}[vInt(0, 5)]
+	host := vHostOfLen(n)
+	in := host
+	qlen := n
+	switch vInt(0, 2) {
+	case 1:
+		in = host + ":8443"
+		qlen = n + len("_8443._https.")
+	case 2:
+		in = "foo://" + host
+		qlen = n + len("_foo.")
+	}
+	z := &vZone{}
+	z.answer = func(q vQuery) (*dns.Message, error) { return &dns.Message{QR: 1}, nil }
+	z.install()
+	r := &Resolver{}
+	_, err := r.Resolve(context.Background(), in)
+	if qlen > 253 {
+		vAssert(errors.Is(err, ErrInvalidName), "a name (with its _port._scheme prefix) longer than 253 bytes is refused with ErrInvalidName")
+		vAssert(len(z.queries) == 0, "an over-long name is refused before any query")
+		vReach("long-refused")
+	} else {
+		vAssert(err == nil && len(z.queries) == 3, "a name within the limit is resolved")
+		vReach("long-ok")
+	}
 }
